@@ -37,4 +37,11 @@ func c08(c *Ctx) {
 	r.Floor("result origin checks (O2)", outs, 16)
 	r.Floor("retained-state fields checked (O1)", keeps, 3)
 	boundsFor(c, "C08", fns)
+	nm := 0
+	for _, o := range r.Obls {
+		if o.Rule == "BOUNDS.CTR" {
+			nm++
+		}
+	}
+	r.Floor("fragment <= MTU contract sites", nm, 10)
 }
